@@ -23,15 +23,16 @@ theorem C17_meaning_config_free (a b : Sys P) (h : SameRules a b) (n : Nat) (v :
 
 /-- Two simulations of the same rules under ANY two caching configurations, after ANY two request
     histories, return the same value for every request (DAG systems). -/
-theorem C17_config_irrelevant (a b : Sys P) (h : SameRules a b) (rk : Nat → Nat)
+theorem C17_config_irrelevant (a b : Sys P) (h : SameRules a b) (hka : SlotCoherent a) (hkb : SlotCoherent b)
+    (rk : Nat → Nat)
     (hra : VarRanked a rk) (hrb : VarRanked b rk) (ha : 1 ≤ a.msl) (hb : 1 ≤ b.msl) (n : Nat)
     (sa sb : St P) (hca : Cons a sa.cache) (hcb : Cons b sb.cache)
     (hsa : sa.stack = []) (hsb : sb.stack = []) (hia : sa.inval = []) (hib : sb.inval = [])
     (k : Node P) (r : Res) (hd : den a n k.1 k.2 = some r) :
     ∃ sa' sb', request a n sa k = some (r, false, sa') ∧ request b n sb k = some (r, false, sb') := by
-  obtain ⟨sa', h1, _⟩ := C01_calculate_eq_den a rk hra ha n sa hca hsa hia k.1 k.2 r hd
+  obtain ⟨sa', h1, _⟩ := C01_calculate_eq_den a hka rk hra ha n sa hca hsa hia k.1 k.2 r hd
   rw [den_sameRules a b h n k.1 k.2] at hd
-  obtain ⟨sb', h2, _⟩ := C01_calculate_eq_den b rk hrb hb n sb hcb hsb hib k.1 k.2 r hd
+  obtain ⟨sb', h2, _⟩ := C01_calculate_eq_den b hkb rk hrb hb n sb hcb hsb hib k.1 k.2 r hd
   exact ⟨sa', sb', h1, h2⟩
 
 /-- a variable that is never cached is recomputed, with the same result -/
@@ -83,6 +84,6 @@ theorem C17_trace_reads (sys : Sys P) (n : Nat) (e : Expr P) (s : St P) (r : Res
 
 example : runET (faultySys false) 5 St.init (.op2 0 (.ref 0 0) (.ref 1 0)) =
     some (.ok [21], false, ⟨[((1, 0), ([11], false))], [], []⟩, [((0, 0), .ok [10]), ((1, 0), .ok [11])]) := by
-  simp [runET, run, runE, faultySys, lookup, store, St.init]
+  simp [runET, run, runE, faultySys, lookup, store, St.init, Sys.slot]
 
 end OFCore
